@@ -18,11 +18,39 @@ def compare(a, b):
     return None
 
 
+def nonnull_oracle(sch, facts):
+    """C03 (theorem nonnull_unique_never_empty): every entity of a root store holds a non-empty string in
+    each field carrying a NON-nullable unique index."""
+    probs = []
+    ents, fvals = {}, {}
+    for f in facts:
+        p = f.split(":")
+        if p[0] == "E":
+            ents.setdefault(p[1], set()).add(p[2])
+        elif p[0] == "F":
+            fvals[(p[1], p[2], p[3])] = p[4]
+    for sname in sch.order:
+        sd = sch.stores[sname]
+        if sd["parent"]:
+            continue
+        for c in sd["cons"]:
+            if c[0] == "U" and not c[2]:
+                for i in sorted(ents.get(sname, ())):
+                    v = fvals.get((sname, i, c[1]), "absent")
+                    if not (v.startswith("s") and v != "s-"):
+                        probs.append("unique index %s.%s does not allow empty values but entity %s holds %s" % (sname, c[1], i, v))
+    return probs
+
+
 def oracle(sch, txs, io, mo):
     out = []
     prev = []
     for k, a in enumerate(io):
         if a["commit"]:
+            nn = nonnull_oracle(sch, a["facts"])
+            if nn:
+                out.append(("C03:nonnull-unique-empty", "after a committed transaction: " + "; ".join(nn[:3]), k))
+                break
             probs = storefam.index_oracle(sch, a["facts"])
             if probs:
                 kind = "unique" if probs[0].startswith("unique") else ("set" if probs[0].startswith("set") else "junk")
@@ -47,7 +75,11 @@ def main(argv):
                         "and child stores, 6 ids x 5 values incl. the empty string so collisions, value hand-over, swaps and re-creation are the norm) over "
                         "wirings with nullable and non-nullable unique indexes, set indexes, fk indexes, cascades and child stores; after every "
                         "transaction the bolt file is traversed; op results and entity/index facts are compared with the extracted machine and the "
-                        "index-mirrors-entities oracle is evaluated directly on the implementation's facts.")
+                        "index-mirrors-entities oracle is evaluated directly on the implementation's facts. Every second history is a WARM one "
+                        "(store_c03s.go): the stores are first populated (fk targets first, distinct unique values), then short mostly-valid "
+                        "transactions perturb string sets (add / drop / replace one member keeping the others, re-order, duplicate, empty), hand "
+                        "unique values over or collide on purpose, delete and re-create - so index maintenance on populated stores commits often.",
+                        command="store_c03s")
     if not proof_ok:
         c.violation(PID + ":proof", "proof obligation no longer checks: %s" % json.dumps(c.proof_broken)[:600],
                     dict(broken=c.proof_broken), no_input=True)
